@@ -47,6 +47,7 @@ func rulesC11(c *Ctx) {
 	p := c.P
 	ruleC11Verbatim(c)
 	ruleC11Unescape(c)
+	ruleC11Fold(c)
 	// --- grammar table -------------------------------------------------------------------
 	g4, err := os.ReadFile(filepath.Join(p.Root, "zitiql", "ZitiQl.g4"))
 	if err != nil {
@@ -562,4 +563,61 @@ func ruleC11Unescape(c *Ctx) {
 	}
 	c.CallSites(n)
 	c.Floor("C11.CONSTVALUE", 1)
+}
+
+// ruleC11Fold: where the type transform folds a constant operand into a new constant (icontains upper-cases
+// a constant pattern once), the new constant is built from the operand's String().  That is only the
+// denoted string as long as StringConstNode.String() returns the value itself — not a display form
+// (re-escaped, quoted, truncated).
+func ruleC11Fold(c *Ctx) {
+	p := c.P
+	valFld := p.Field("ast", "StringConstNode", "value")
+	var fromString func(v ssa.Value, depth int) bool
+	fromString = func(v ssa.Value, depth int) bool {
+		if v == nil || depth > 5 {
+			return false
+		}
+		call, ok := v.(*ssa.Call)
+		if !ok {
+			return false
+		}
+		if call.Call.IsInvoke() && call.Call.Method.Name() == "String" {
+			return true
+		}
+		for _, a := range call.Call.Args {
+			if fromString(a, depth+1) {
+				return true
+			}
+		}
+		return false
+	}
+	var folds []*ssa.Store
+	for _, fn := range c.prodFuncs("ast") {
+		for _, b := range fn.Blocks {
+			for _, in := range b.Instrs {
+				if st, ok := in.(*ssa.Store); ok {
+					if f, _ := fieldOfAddr(st.Addr); sameVar(f, valFld) && fromString(st.Val, 0) {
+						folds = append(folds, st)
+					}
+				}
+			}
+		}
+	}
+	if len(folds) == 0 {
+		c.OK("C11.FOLD", "ast: constant folding", "-", "no constant is built from another node's String()")
+		return
+	}
+	sf := p.SSAFunc(p.Method("ast", "StringConstNode", "String"))
+	c.Analysed(FnName(sf))
+	raw := true
+	for _, r := range returnsOf(sf) {
+		f, base := loadedField(r.Results[0])
+		if !sameVar(f, valFld) || base != ssa.Value(sf.Params[0]) {
+			raw = false
+		}
+	}
+	for _, st := range folds {
+		c.Check(raw, "C11.FOLD", FnName(st.Parent())+": folds a constant through String()", p.Pos(st.Pos()), "StringConstNode.String() returns the value unchanged, so the folded constant denotes the same string", "a constant is folded from the operand's String(), but StringConstNode.String() does not return the value unchanged (a display form): the folded pattern denotes a different string than the literal the user wrote")
+	}
+	c.CallSites(len(folds))
 }
